@@ -348,6 +348,33 @@ Section MDP.
     apply wf_VMap in Hw. destruct Hw as [_ Hw]. rewrite Forall_forall in Hw. apply (Hw _ Hin).
   Qed.
 
+  (* the four rules, read off the function itself: what is stored under each key *)
+  Theorem entry_rules secret kd items k v :
+    wf (VMap kd items) = true -> In (k, v) items ->
+    exists out v',
+      mdp mp secret (VMap kd items) = Ok (VMap dict_kind out) /\ In (k, v') out /\
+      (is_mapping v = true -> mdp mp secret v = Ok v') /\
+      (is_mapping v = false -> secret_key k = true -> v' = VStr secret) /\
+      (secret_key k = false -> forall s, v = VStr s -> v' = VStr (mp s secret)) /\
+      (secret_key k = false -> forall t, v = VOther t -> v' = VOther t).
+  Proof.
+    intros Hw Hin.
+    destruct (mdp_sound secret (VMap kd items) Hw eq_refl) as [r [Hr HM]].
+    inversion HM as [? ? out M]; subst.
+    destruct (MaskedItems_In secret items out k v M Hin) as [v' [Hin' E]].
+    assert (Hwv : wf v = true).
+    { apply wf_VMap in Hw. destruct Hw as [_ Hw]. rewrite Forall_forall in Hw. apply (Hw _ Hin). }
+    exists out, v'. split; [exact Hr|]. split; [exact Hin'|].
+    inversion E as [? ? ? Hm HMv|? ? Hnm Hsk|? s0 Hsk|? t0 Hsk]; subst.
+    - split; [intros _; apply mdp_complete; assumption|].
+      split; [intros H; congruence|]. split; intros _ ? ->; discriminate.
+    - split; [intros H; congruence|]. split; [reflexivity|]. split; intros H; congruence.
+    - split; [discriminate|]. split; [intros _ H; congruence|].
+      split; [intros _ s1 H; inversion H; reflexivity|intros _ t1 H; discriminate].
+    - split; [discriminate|]. split; [intros _ H; congruence|].
+      split; [intros _ s1 H; discriminate|intros _ t1 H; inversion H; reflexivity].
+  Qed.
+
   (* a mapping argument never raises *)
   Corollary mapping_argument_ok secret d : wf d = true -> is_mapping d = true -> exists r, mdp mp secret d = Ok r.
   Proof. intros Hw Hm. destruct (mdp_sound secret d Hw Hm) as [r [Hr _]]. exists r. exact Hr. Qed.
